@@ -153,6 +153,27 @@ class KGCond(list):
 
 
 class KGUndefined:
+    """
+    The :undefined marker. Undefined-ness is tested by identity (`x is KLONG_UNDEFINED`),
+    so there must only ever be one instance: constructing, copying or unpickling
+    (e.g. a value sent over IPC) always yields that same object.
+    """
+    _instance = None
+
+    def __new__(cls):
+        if cls._instance is None:
+            cls._instance = super().__new__(cls)
+        return cls._instance
+
+    def __reduce__(self):
+        return (KGUndefined, ())
+
+    def __copy__(self):
+        return self
+
+    def __deepcopy__(self, memo):
+        return self
+
     def __repr__(self):
         return ":undefined"
 
